@@ -445,16 +445,8 @@ def prepare (env : Env N) (data : Row N) (sc : Scope) : Query N → R (Prepared 
     let (rows, dual, _) ← evalFrom env data' sc' frm
     let grouped := !groupBy.isEmpty
     let selectRows (ctx : Ctx N) (rs : List (Val N)) : R (List (Val N)) :=
-      if isAllAggr sel && !ctx.grouped then do
-        let row ← evalSel env ctx [] sel []
-        pure [.obj row]
-      else mapE (fun r =>
-        match r with
-        | .arr xs => (.ok (.arr xs) : R (Val N))
-        | .obj fs => do
-          let row ← evalSel env ctx fs sel []
-          pure (.obj row)
-        | _ => .error .error) rs
+      selectRowsWith (fun fs => evalSel env ctx fs sel [])
+        (if isAllAggr sel && !ctx.grouped then some (evalSel env ctx [] sel []) else none) rs
     let post (src kept : List (Val N)) : R (List (Val N)) := do
       let ctx : Ctx N := { data := data', hard := false, grouped := grouped, matched := kept, fromLen := src.length }
       let groupedRows ← (if !grouped then pure kept else do
